@@ -1,6 +1,7 @@
 package sym
 
 import (
+	"crypto/md5"
 	"encoding/base64"
 	"fmt"
 	"go/types"
@@ -62,6 +63,9 @@ func (ex *Exec) pageTokenInfo() *pbMsgInfo {
 // RngObj is an opaque random source.
 type RngObj struct{}
 
+// HashObj is crypto/md5 over concrete data: what is written must be concrete, the digest is computed for real.
+type HashObj struct{ buf []byte }
+
 type CtxObj struct {
 	parent   *CtxObj
 	children []*CtxObj
@@ -76,7 +80,7 @@ type CtxObj struct {
 
 func isNativeObj(v Value) bool {
 	switch v.(type) {
-	case *ErrObj, *StatusObj, *CtxObj, *PRMsg, *PRField, *PRList, *PRMap, *PRFields, *PRMsgDesc, *PREnum, *ListStub, *PRVal, *RngObj, *MarshalledMsg:
+	case *ErrObj, *StatusObj, *CtxObj, *PRMsg, *PRField, *PRList, *PRMap, *PRFields, *PRMsgDesc, *PREnum, *ListStub, *PRVal, *RngObj, *MarshalledMsg, *HashObj:
 		return true
 	}
 	return false
@@ -144,6 +148,33 @@ func (ex *Exec) nativeMethod(g *G, recv Value, name string, args []Value, done f
 	case *PRMsg, *PRField, *PRList, *PRMap, *PRFields, *PRMsgDesc, *PREnum:
 		ex.pbMethod(g, recv, name, args, done)
 		return
+	case *HashObj:
+		switch name {
+		case "Write":
+			b, ok := ex.concBytes(args[0])
+			if !ok {
+				ex.unsupported("md5 over symbolic bytes")
+			}
+			r.buf = append(r.buf, b...)
+			done(TupleV{ex.intC(len(b)), IfaceV{}})
+			return
+		case "WriteString":
+			sv, ok := concStr(args[0])
+			if !ok {
+				ex.unsupported("md5 over a symbolic string")
+			}
+			r.buf = append(r.buf, sv...)
+			done(TupleV{ex.intC(len(sv)), IfaceV{}})
+			return
+		case "Sum":
+			prefix, ok := ex.concBytes(args[0])
+			if !ok {
+				ex.unsupported("md5 Sum appended to symbolic bytes")
+			}
+			sum := md5.Sum(r.buf)
+			done(ex.byteSlice(append(prefix, sum[:]...)))
+			return
+		}
 	}
 	ex.unsupported(fmt.Sprintf("method %s on native %T", name, recv))
 }
@@ -210,6 +241,14 @@ func (ex *Exec) concreteSprintf(format Value, variadic Value) (string, bool) {
 		iv, ok := v.(IfaceV)
 		if !ok {
 			return "", false
+		}
+		if bs, isSl := iv.V.(SliceV); isSl {
+			b, okb := ex.concBytes(bs)
+			if !okb {
+				return "", false
+			}
+			ops = append(ops, b)
+			continue
 		}
 		t, ok := iv.V.(*smt.Term)
 		if !ok || !t.IsConst() {
@@ -348,6 +387,17 @@ func init() {
 			cur = e.Wrap.(IfaceV)
 		}
 		done(ex.boolC(false))
+	})
+	reg("crypto/md5.New", func(ex *Exec, g *G, fn *ssa.Function, args []Value, done func(Value)) {
+		done(IfaceV{V: &HashObj{}})
+	})
+	reg("io.WriteString", func(ex *Exec, g *G, fn *ssa.Function, args []Value, done func(Value)) {
+		iv, _ := args[0].(IfaceV)
+		h, ok := iv.V.(*HashObj)
+		if !ok {
+			ex.unsupported("io.WriteString to a writer that is not the modelled hash")
+		}
+		ex.nativeMethod(g, h, "WriteString", args[1:], done)
 	})
 	reg("fmt.Sprintf|fmt.Sprint|fmt.Sprintln", func(ex *Exec, g *G, fn *ssa.Function, args []Value, done func(Value)) {
 		if fn.Name() == "Sprintf" && len(args) == 2 {
@@ -1114,4 +1164,30 @@ func (ex *Exec) callNative(name string, f any, fn *ssa.Function, args []Value) V
 		tv[i] = conv(out[i], res.At(i).Type())
 	}
 	return tv
+}
+
+// concBytes returns the contents of a []byte value when every element is concrete (a nil slice is empty).
+func (ex *Exec) concBytes(v Value) ([]byte, bool) {
+	sv, ok := v.(SliceV)
+	if !ok {
+		return nil, false
+	}
+	var out []byte
+	for i := 0; i < sv.Len; i++ {
+		c, okc := concInt(ex.load(sv.Arr.Kids[sv.Off+i]))
+		if !okc {
+			return nil, false
+		}
+		out = append(out, byte(c))
+	}
+	return out, true
+}
+
+// byteSlice builds a fresh []byte value holding b.
+func (ex *Exec) byteSlice(b []byte) Value {
+	arr := ex.newArrayLoc(types.Typ[types.Uint8], len(b))
+	for i, c := range b {
+		arr.Kids[i].V = ex.B.BVC(uint64(c), 8)
+	}
+	return SliceV{Arr: arr, Len: len(b), Cap: len(b)}
 }
